@@ -53,8 +53,8 @@ def r1_raise_census(ctx, chk, rule="C06.1"):
                 name = call_name(exc)
             elif isinstance(exc, ast.Name):
                 name = exc.id
-            if name == "ValueError":
-                chk.ok(rule, f.where(r), "raise ValueError(...)")
+            if name == "ValueError" or (name and ctx.prog.exc_is_a(name, "ValueError")):
+                chk.ok(rule, f.where(r), "raise %s(...)%s" % (name, "" if name == "ValueError" else " - a ValueError"))
             elif exc is None:
                 chk.undecided(rule, f.where(r), "bare re-raise")
             elif name == "NotImplementedError" and f.cls is not None and _abstract_stub(ctx, f):
@@ -86,7 +86,7 @@ def r1b_try_census(ctx, chk, rule="C06.1b"):
                     names = [e.id for e in ty.elts if isinstance(e, ast.Name)]
                 broad = [x for x in names if x in ("<bare>", "Exception", "BaseException", "ValueError")]
                 reraises = [r for s in h.body for r in ast.walk(s) if isinstance(r, ast.Raise)]
-                ok_raise = reraises and all(r.exc is None or (isinstance(r.exc, ast.Call) and call_name(r.exc) == "ValueError") or
+                ok_raise = reraises and all(r.exc is None or (isinstance(r.exc, ast.Call) and ctx.prog.exc_is_a(call_name(r.exc), "ValueError")) or
                                             (isinstance(r.exc, ast.Name) and r.exc.id == h.name) for r in reraises) \
                     and isinstance(h.body[-1], ast.Raise)
                 if broad and not ok_raise:
